@@ -281,9 +281,8 @@ class Ref:
                 raise RefError("ENotFound")
             body = self.case["loader"][n[1]]
             scope = self.kwargs(ctx, n[3])
-            sub = RCtx([scope] + ctx.base, ctx.base, True)
             if n[2] is None:
-                self.template(sub, body, buf, top=True)
+                self.template(RCtx([scope] + ctx.base, ctx.base, True), body, buf, top=True)
                 return
             v = self.path(ctx, n[2][0])
             key = n[2][2] or n[1]
@@ -294,10 +293,10 @@ class Ref:
                     scope["forloop"] = {"index": i + 1, "index0": i, "rindex": len(v) - i, "rindex0": len(v) - i - 1,
                                         "first": i == 0, "last": i == len(v) - 1, "length": len(v)}
                     scope[key] = itm
-                    self.template(sub, body, buf, top=True)
+                    self.template(RCtx([scope] + ctx.base, ctx.base, True), body, buf, top=True)   # a fresh scope per item
             else:
                 scope[key] = v
-                self.template(sub, body, buf, top=True)
+                self.template(RCtx([scope] + ctx.base, ctx.base, True), body, buf, top=True)
         elif t == "macro":
             ctx.macros[n[1]] = (n[2], n[3])
         elif t == "call":
@@ -370,9 +369,9 @@ def wrap(kind, name, depth, inner, loader, rng):
     if kind == "rend":
         loader[f"p{depth}"] = inner
         return [("render", f"p{depth}", None, [(name, lit(tagv))])]
-    if kind == "rendf":
+    if kind == "rendf":   # a one-item array: how the items of render..for relate to one another is C15's subject
         loader[f"p{depth}"] = inner
-        return [("render", f"p{depth}", (P(f"fl{depth}"), True, name), [])]
+        return [("render", f"p{depth}", (P(f"fr{depth}"), True, name), [])]
     if kind == "call":
         other = rng.choice(NAMES)
         return [("macro", f"m{depth}", [(name, None), (other, lit(f"dflt{depth}"))], inner), ("call", f"m{depth}", [(name, lit(tagv))])]
@@ -413,6 +412,7 @@ def nest_case(order, rng):
                 layers[ly][nm] = tg + nm
     for d in range(1, 4):
         layers[rng.choice(["args", "matter", "tglobals", "eglobals"])][f"fl{d}"] = [f"f{d}a", f"f{d}b"]
+        layers[rng.choice(["args", "matter", "tglobals", "eglobals"])][f"fr{d}"] = [f"r{d}a"]
         layers[rng.choice(["args", "matter", "tglobals", "eglobals"])][f"sv{d}"] = rng.choice([f"s{d}", [f"s{d}a", f"s{d}b"]])
     return L.mk_case(inner, loader=loader, **layers)
 
@@ -425,7 +425,7 @@ def gen_nests(ck: Check):
             # an isolated construct inside an isolated construct is C15's subject (nested partials)
             if sum(k in ISOLATED for k in order) > 1:
                 continue
-            if depth == 3 and ck.quick and rng.random() < 0.5:
+            if depth == 3 and ck.quick and rng.random() < 0.6:
                 continue
             for _ in range(reps if depth == 3 else reps * 3):
                 yield ("nest:" + ">".join(order), nest_case(order, rng))
@@ -523,8 +523,10 @@ def gen_paths(ck: Check):
     for n in (0, 1, 2):
         for root in ROOTS:
             for segs in itertools.product(SEGS, repeat=n):
+                if n == 2 and ck.quick and rng.random() < 0.6:
+                    continue
                 yield root, list(segs)
-    for _ in range(1500 if ck.quick else 25000):
+    for _ in range(1000 if ck.quick else 25000):
         root = rng.choice(ROOTS[:2] if rng.random() < 0.8 else ROOTS)
         segs = []
         obj = DATA.get(root, UNDEF)
@@ -561,12 +563,12 @@ def run(ck: Check) -> None:  # noqa: PLR0912, PLR0915
         "template globals, environment globals) populated independently per name (at most one isolated construct per nest: nested "
         "partials belong to C15); layers: one name x every subset of the four layers x locals/counters/with/for in front; builtin "
         "now/today against counters, globals and locals; errors and interrupts (missing partial, type error, break, continue) at depth "
-        "0..3 of seeded nests in lax and strict mode; paths: every root x every sequence of 0..2 segments out of 28 (names, size/first/"
+        "0..3 of seeded nests in lax and strict mode; paths: every root x every sequence of 0..2 segments out of 28 (quick: a seeded 40% of the 2-segment ones) (names, size/first/"
         "last, indexes incl. negative and out of range, nested variables) exhaustively plus seeded 3-segment paths, each in dotted, "
         "single- and double-quoted bracket notation, under the default and the strict undefined type. Non-trivial = the template binds "
         "a probed name (nests), has a populated layer (layers) or the path has at least one segment; distinct = distinct case."
     )
-    ck.exhaustive = True
+    ck.exhaustive = not ck.quick   # quick samples the depth-3 nesting orders; everything else is enumerated
     ck.trusted_base = [
         "Coq 8.16.1 kernel + vm_compute",
         "harness: generators, Liquid/Gallina printers (scope_lib.py), reference resolver (props/c14.py)",
